@@ -60,7 +60,11 @@ func newC02Rig(x *mc.X) (*c02Rig, error) {
 		if err := client.SendNode(g.d.Nc, data.NodeEdge{ID: "B", Parent: "devD", Type: "vtest", Points: data.Points{{Type: "description", Text: "node B", Time: g.tick()}}}, "creator"); err != nil {
 			return err
 		}
-		return client.SendEdgePoints(g.d.Nc, "B", "A", data.Points{{Type: data.PointTypeTombstone, Time: g.tick()}, {Type: data.PointTypeNodeType, Text: "vtest"}}, true)
+		if err := client.SendEdgePoints(g.d.Nc, "B", "A", data.Points{{Type: data.PointTypeTombstone, Time: g.tick()}, {Type: data.PointTypeNodeType, Text: "vtest"}}, true); err != nil {
+			return err
+		}
+		// L: a plain leaf below the device (one placement, no children)
+		return client.SendNode(g.d.Nc, data.NodeEdge{ID: "L", Parent: "devD", Type: "vtest", Points: data.Points{{Type: "description", Text: "leaf L", Time: g.tick()}}}, "creator")
 	}, false)
 	if err != nil {
 		return g, err
@@ -143,6 +147,7 @@ type c02State struct {
 	upAway   bool            // the upstream store is not running (its bus is reachable)
 	aDeleted map[string]bool // side -> believes A deleted (for applicability only)
 	cExists  bool
+	eExists  bool
 	newest   map[string]data.Point // "node/type/key" and "edge:parent>node/type" -> newest accepted write
 }
 
@@ -193,6 +198,25 @@ func c02Ops() []c02Op {
 			st.accept("C/tag/1", gone)
 			st.accept("C/blob/0", blob)
 			return true, client.SendNode(side(g, s).Nc, data.NodeEdge{ID: "C", Parent: "devD", Type: "vtest", Points: data.Points{p, gone, blob}}, "user"+s)
+		}})
+	}
+	for _, s := range []string{"D", "U"} {
+		s := s
+		// a child below a node that has no children yet (L is a leaf on both sides)
+		ops = append(ops, c02Op{name: "create E below the leaf L at " + s, do: func(g *c02Rig, st *c02State) (bool, error) {
+			if st.eExists {
+				return false, nil
+			}
+			st.eExists = true
+			p := data.Point{Type: "description", Text: "node E made at " + s, Time: g.tick()}
+			st.accept("E/description/0", p)
+			return true, client.SendNode(side(g, s).Nc, data.NodeEdge{ID: "E", Parent: "L", Type: "vtest", Points: data.Points{p}}, "user"+s)
+		}})
+		// B is placed twice inside the device tree (below the device and below A): a node point on it
+		ops = append(ops, c02Op{name: "point on the twice-placed node B at " + s, do: func(g *c02Rig, st *c02State) (bool, error) {
+			p := data.Point{Type: "value", Value: float64(g.clock % 100000), Time: g.tick(), Origin: "user" + s}
+			st.accept("B/value/0", p)
+			return true, client.SendNodePoints(side(g, s).Nc, "B", data.Points{p}, true)
 		}})
 	}
 	for _, del := range []bool{true, false} {
@@ -419,6 +443,9 @@ func c02Body(t *testing.T, depth, devBound int) mc.Body {
 					} else {
 						f := strings.SplitN(key, "/", 2)
 						place, ident = "devD>"+f[0], f[1]
+						if f[0] == "E" {
+							place = "L>E"
+						}
 					}
 					if !strings.Contains(dt[place], c02Canon(data.Points{normalisedPoint(p)})) {
 						return "accepted-write-lost", fmt.Sprintf("%s: newest accepted write for %s %s is %s, but both sides hold: %s", when, place, ident, c02Canon(data.Points{normalisedPoint(p)}), dt[place])
@@ -431,7 +458,7 @@ func c02Body(t *testing.T, depth, devBound int) mc.Body {
 				return
 			}
 			g.s.choose = devBound > 0
-			outageTomb, outageDeadWrite := "", ""
+			outageTomb, outageDeadWrite, outageTwice := "", "", ""
 			for d := 0; d < depth; d++ {
 				op := ops[x.Choose(len(ops), "op")]
 				if op.do == nil {
@@ -466,6 +493,12 @@ func c02Body(t *testing.T, depth, devBound int) mc.Body {
 					// a write on A or below it made while nothing is forwarded: it can only travel by catch-up, and the
 					// catch-up walk does not descend into a node that is deleted by the time it runs (known finding)
 					outageDeadWrite = op.name
+				}
+				if (st.disabled || st.linkDown || st.upAway) && strings.Contains(op.name, "twice-placed node B") && outageTwice == "" {
+					// B hangs below the device twice (devD>B and devD>A>B): in the XOR hash of the device node its
+					// contribution cancels out, so a change on it made while nothing is forwarded is invisible to the
+					// catch-up comparison (known finding)
+					outageTwice = op.name
 				}
 				if !early {
 					g.s.quiesce()
@@ -532,6 +565,8 @@ func c02Body(t *testing.T, depth, devBound int) mc.Body {
 				key := "diverged/" + k
 				if outageTomb != "" {
 					key = "tombstone-written-during-outage/" + strings.ReplaceAll(outageTomb, " ", "-")
+				} else if outageTwice != "" && strings.Contains(m, "B differs") {
+					key = "write-on-twice-placed-node-during-outage/at-" + outageTwice[len(outageTwice)-1:]
 				} else if outageDeadWrite != "" && st.aDeleted["any"] {
 					// one class per side, whatever kind of write it was (point, new identity, edge point, mirror placement)
 					key = "write-below-deleted-node-during-outage/at-" + outageDeadWrite[len(outageDeadWrite)-1:]
@@ -574,7 +609,7 @@ func TestC02(t *testing.T) {
 				c02Body(t, 3, 1))
 		}
 		r.Explore(mc.Config{Name: fmt.Sprintf("histories-d%d-dev%d", depth, dev), Serial: true, SplitDepth: 2, DevBound: dev, StopAfterViolations: 40,
-			Rule: fmt.Sprintf("two real stores linked by the real SyncClient (period 1 s) after an initial catch-up; all histories of %d operations over 24 (point with an existing identity / with a new key of an existing type, edge point on a shared node and on the second placement of a mirrored node on a shared node at either side, node creation at either side, delete / undelete at either side, sync disabled = clean outage / re-enabled, link lost abruptly / restored, upstream process restarted, upstream stopped with its clients reconnecting before its store answers / upstream store back, a sync period passes), %d scheduling deviations; then the link is brought up, 5 periods pass, and the device subtrees (deleted nodes included, every point with all fields) must be identical and hold the newest accepted write per identity", depth, dev)},
+			Rule: fmt.Sprintf("two real stores linked by the real SyncClient (period 1 s) after an initial catch-up; all histories of %d operations over 28 (point with an existing identity / with a new key of an existing type, edge point on a shared node and on the second placement of a mirrored node on a shared node at either side, node creation at either side (below the device and below a leaf), node point on a node that is placed twice inside the device tree, delete / undelete at either side, sync disabled = clean outage / re-enabled, link lost abruptly / restored, upstream process restarted, upstream stopped with its clients reconnecting before its store answers / upstream store back, a sync period passes), %d scheduling deviations; then the link is brought up, 5 periods pass, and the device subtrees (deleted nodes included, every point with all fields) must be identical and hold the newest accepted write per identity", depth, dev)},
 			c02Body(t, depth, dev))
 		r.Assume("outages: the sync node disabled / re-enabled (clean disconnect) and abrupt loss of the sync client's upstream connection (queued deliveries lost, its publishes buffered and flushed on recovery, Disconnected/Reconnected handlers); an upstream restart = its clients lose the link, the store stops and reopens the same file, the clients reconnect")
 		r.Assume("root edge points of the device node are not compared (the code excludes them from synchronisation)")
